@@ -31,6 +31,23 @@ def _init(pid):
 
 
 def _work(shard):
+    from . import dsl
+
+    via = "ctor"
+    if isinstance(shard, tuple) and len(shard) == 3 and shard[0] == "__via__":
+        via, shard = shard[1], shard[2]
+    dsl.VIA = via
+    a = _work1(shard)
+    if via != "ctor":
+        for v in a.violations.values():
+            if isinstance(v.get("witness"), dict):
+                v["witness"]["via"] = via
+            v["message"] = f"[nodes built through the public decorators] {v['message']}"
+        a.counters[f"executions_with_nodes_built_via_{via}"] += a.evaluations
+    return a
+
+
+def _work1(shard):
     try:
         return _MOD.run_shard(shard)
     except HarnessError as e:
@@ -63,9 +80,12 @@ def main(argv):
     if argv[1] == "--replay":
         rep = json.load(open(argv[2]))
         _init(pid)
+        from . import dsl
+
+        dsl.VIA = rep.get("via", "ctor")
         if "shard_replay" in rep:
             sh = rep["shard_replay"]
-            a = _work(tuple(sh) if isinstance(sh, list) else sh)
+            a = _work(("__via__", rep.get("via", "ctor"), tuple(sh) if isinstance(sh, list) else sh))
             vs = [v["message"] for v in a.violations.values()] + a.harness_errors
         else:
             vs = mod.replay(rep)
@@ -83,6 +103,9 @@ def main(argv):
     seed = int(os.environ.get("VERIF_SEED", "0") or 0)
     t0 = time.time()
     shards = mod.shards(tier, seed)
+    if getattr(mod, "BOTH_CONSTRUCTION_PATHS", False):
+        # the whole space once with nodes built by the constructors and once through the public decorators
+        shards = [("__via__", v, s) for v in ("ctor", "deco") for s in shards]
     nproc = int(os.environ.get("VERIF_WORKERS", "0") or 0) or min(16, os.cpu_count() or 1)
     acc = ev.Acc()
     if nproc <= 1 or len(shards) <= 1:
